@@ -55,6 +55,17 @@ CHECKS = {
           "(thorough) over a scalar and a 2-element register rendered through every access path, plus random histories.", "DESIGN.md §6 C06"),
    note="Trusted: Coq kernel; extraction; glue; hooks H1-H3. Only the qubit-relevant part of the evaluator is modelled.",
    technique="Coq proof (state-machine invariant) + exhaustive-small extraction-based correspondence"),
+ "C14": dict(
+   level=("proof", "Coq theorems (axiom-free) on a model of the expression parser (assignment level, Pratt loop with the binding-power table, "
+          "prefix, primary, casts, argument and array-literal lists): for every well-parenthesised tree over all expression forms, parsing its "
+          "rendering returns the tree; add_parens inserts exactly the parentheses the precedence/associativity rules require, yields a "
+          "well-parenthesised tree for every tree and only adds parentheses - so minimal rendering then parsing is the identity on trees. "
+          "Tied by rendering every operator pair/nesting at size 3 and random trees up to size 12 with the extracted add_parens/render, parsing "
+          "them with the real parser and comparing dumped ASTs node for node. Statements, functions and class members are not yet covered "
+          "(partial).", "DESIGN.md §6 C14"),
+   note="Trusted: Coq kernel; extraction; s-expression/token-spelling glue; AST dump through the public Lexer/Parser API. Fuel is existentially "
+        "quantified in the theorem; the driver runs with 4*tokens+8 and reports if that is not enough.",
+   technique="Coq proof (mutual fuelled parser, 'eventually' induction over trees) + extraction-based round-trip correspondence"),
  "C15": dict(
    level=("proof", "Coq theorems (axiom-free) on a model of lexer.cpp for every source string: tokens and skipped trivia concatenate to the "
           "source, trivia is only whitespace and // comments, every token's reported line/column is the position of its first character "
